@@ -18,6 +18,7 @@ in the dev profile and in an optimised profile; only a counterexample that
 reproduces natively becomes a VIOLATION.
 """
 import os
+import sys
 import queue
 import re
 import shutil
@@ -417,6 +418,11 @@ def replay_file_cmd(prop, replay_file, features=(), hook=False):
     if features:
         cmd += ["--features", ",".join(features)]
     cmd += ["--", "kani_concrete_playback_" + fn]
-    r = subprocess.run(cmd, cwd=scratch, env=env)
+    r = subprocess.run(cmd, cwd=scratch, env=env, stdout=subprocess.PIPE, stderr=subprocess.STDOUT, text=True)
+    sys.stdout.write(r.stdout)
     shutil.rmtree(scratch, ignore_errors=True)
+    # the verdict is the playback test's own result line, not cargo's exit status (which also covers unrelated steps)
+    m2 = re.search(r"test result: (\w+)\. (\d+) passed; (\d+) failed", r.stdout)
+    if m2 and int(m2.group(2)) + int(m2.group(3)) >= 1:
+        return 1 if int(m2.group(3)) > 0 else 0
     return 1 if r.returncode != 0 else 0
